@@ -253,3 +253,35 @@ pub fn lzma_alone_encode_ref(lzma: &RefLzma, data: &[u8]) -> Result<Vec<u8>, Str
     let enc = Stream::new_lzma_encoder(&o).map_err(|e| format!("{e:?}"))?;
     run(enc, data)
 }
+
+/// Number of bytes liblzma produces for a file before it accepts or rejects it (the generators
+/// keep damaged files whose decoding inflates beyond the model's output budget out of the
+/// specification-vs-liblzma comparison).
+pub fn decoded_len(lzip: bool, data: &[u8]) -> usize {
+    let dec = if lzip { Stream::new_lzip_decoder(u64::MAX, CONCATENATED) } else { Stream::new_stream_decoder(u64::MAX, CONCATENATED) };
+    let mut s = match dec {
+        Ok(s) => s,
+        Err(_) => return 0,
+    };
+    let mut out = Vec::with_capacity(data.len() + 4096);
+    let mut pos = 0usize;
+    loop {
+        if out.capacity() - out.len() < 4096 {
+            out.reserve(65536);
+        }
+        let before = s.total_in();
+        let action = if pos >= data.len() { Action::Finish } else { Action::Run };
+        let st = match s.process_vec(&data[pos..], &mut out, action) {
+            Ok(st) => st,
+            Err(_) => return out.len(),
+        };
+        pos += (s.total_in() - before) as usize;
+        match st {
+            Status::StreamEnd | Status::MemNeeded => return out.len(),
+            _ => {}
+        }
+        if out.len() > (1 << 24) {
+            return out.len();
+        }
+    }
+}
